@@ -1022,6 +1022,39 @@ func runC14Quic(s *Sim, P int, malformed bool) {
 	if s.sample == nil {
 		s.sample = map[string]any{"mode": "quic", "messages": nm, "payload": P, "datagrams": len(flight)}
 	}
+	// incomplete messages are forgotten after the expiry time (5 s here, swept every second): the last
+	// segment of a message that arrives 9 s after the others completes nothing
+	if !concurrent && t.Bool("q-late-segment-after-expiry", 1, 3) {
+		qa.dgDelay = 0
+		em := messageOfSize(t, 2*P+Pick(t, "q-exp-tail", 1, P), "expired")
+		if err := ua.Write(em); err == nil {
+			segs := qa.takeDatagrams()
+			if len(segs) >= 2 {
+				held := segs[t.Choose("q-exp-held", len(segs))]
+				for _, d := range segs {
+					if &d[0] != &held[0] {
+						qb.dgIn <- d
+					}
+				}
+				s.Wait()
+				time.Sleep(9 * time.Second)
+				s.Wait()
+				qb.dgIn <- held
+				s.Wait()
+				time.Sleep(100 * time.Millisecond)
+				s.Wait()
+				s.Stat("fault.datagram-after-expiry")
+				mu.Lock()
+				for _, g := range got {
+					if bytes.Equal(g, em) {
+						s.Violate("C14.not-forgotten-after-expiry", "quic", "a message of %d segments whose last missing segment arrived 9 s after the others (expiry 5 s) was handed up", len(segs))
+						break
+					}
+				}
+				mu.Unlock()
+			}
+		}
+	}
 	ta.Close()
 	tb.Close()
 	s.Wait()
